@@ -120,6 +120,7 @@ type harness struct {
 	txns      []*txn
 	nextTxn   int
 	tokN      int
+	batchN    int
 	family    string
 	log       []string
 }
@@ -605,6 +606,34 @@ func (h *harness) genTran(mode string) tranPlan {
 			o.think = time.Duration([]int{1, 20, 300, 1500, 4000, 9000}[g.Choose(6)]) * time.Millisecond
 		}
 		tp.ops = append(tp.ops, o)
+	}
+	// a batch: read the highest row, delete or update it, then append 10-30 rows with keys
+	// above everything (large index buffer chunks, delete of a chunk's last key)
+	bw := 8
+	if mode == "C06" || mode == "C16" {
+		bw = 3
+	}
+	if g.Coin(1, bw) {
+		tn := h.sm.order[g.Choose(len(h.sm.order))]
+		t := h.sm.tables[tn]
+		pk := t.Idx[t.pkIdx()]
+		if len(pk.Cols) == 1 {
+			var ops []op
+			ops = append(ops, op{kind: opScan, table: tn, idx: t.pkIdx(), whole: true, rev: true, max: 1, probe: h.randRow(t), probe2: h.randRow(t)})
+			switch g.Choose(3) {
+			case 0:
+				ops = append(ops, op{kind: opDelete, table: tn})
+			case 1:
+				ops = append(ops, op{kind: opUpdate, table: tn, row: h.randRow(t)})
+			}
+			for n := g.Range(10, 30); n > 0; n-- {
+				r := h.randRow(t)
+				h.batchN++
+				r[pk.Cols[0]] = val(fmt.Sprintf("z%05d", h.batchN))
+				ops = append(ops, op{kind: opOutput, table: tn, row: r})
+			}
+			tp.ops = append(ops, tp.ops...)
+		}
 	}
 	abortW := 1
 	if mode == "C03" {
